@@ -28,7 +28,7 @@ place() { # copy demos to the directory their package clause belongs to
     case " $DIRS " in *" $dir "*) ;; *) DIRS="$DIRS $dir" ;; esac
   done
 }
-rundemo() { rc=0; for dir in $DIRS; do (cd $W/$dir && timeout 600 go1.26 test -vet=off -count=1 -run 'TestSeed' . > $W/demo.$1.log 2>&1) || rc=1; cat $W/demo.$1.log >> $W/demo.$1.all; done; return $rc; }
+rundemo() { rc=0; for dir in $DIRS; do (cd $W/$dir && timeout 600 go1.26 test -vet=off -count=1 -run 'TestSeed|TestDemo' . > $W/demo.$1.log 2>&1) || rc=1; cat $W/demo.$1.log >> $W/demo.$1.all; done; return $rc; }
 place
 rundemo clean; clean_rc=$?
 rm -f $(for dir in $DIRS; do ls $W/$dir/zz_seed_*; done)
